@@ -3,13 +3,14 @@ from __future__ import annotations
 
 import z3
 
-from engine.pyvals import NONE, PyObj, PyTuple, Tok, is_tok, truthy as z3_truthy
+from engine.pyvals import NONE, PyObj, PyTuple, Tok, TokSeq, is_tok, truthy as z3_truthy
 from engine.pyvc import Tr, lift
 
 CLASSES = {
     "Tokenizer": {
         "_tokengen": "gen[Tok]", "_tokens": "seq[Tok]", "_index": "int", "_verbose": "bool", "_lines": "map", "_path": "str",
         "_stack": "seq[Tok]", "_call_macro": "bool", "_with_macro": "bool", "_proc_macro": "bool",
+        "_end_parens": "initdict",      # constant dict literal, read from the real __init__
         "_abs": "pabs",      # ghost: everything else a rule method may depend on (never read by the verified code)
         "__methods__": (),
     },
@@ -64,7 +65,10 @@ def sf_is_none(ex, st, v):
 
 
 def sf_pos_le(ex, st, a, b):
+    from engine.pyvals import PyOpt
     from engine.pyvc import lex_lt
+    a = a.some if isinstance(a, PyOpt) else a      # callers guard the None case (`implies(x is not None, ...)`)
+    b = b.some if isinstance(b, PyOpt) else b
     return lex_lt(a, b, False)
 
 
@@ -94,6 +98,21 @@ def sf_gen_len(ex, st, tk):
 
 def sf_gen_item(ex, st, tk, j):
     return tk.fields["_tokengen"].items[lift(j)]
+
+
+GCAT = z3.Function("gen_cat", TokSeq, z3.IntSort(), z3.IntSort(), z3.StringSort())
+
+
+def sf_gen_cat(ex, st, tk, a, b):
+    """concatenation of the `string` fields of the raw tokens number a .. b-1 of the stream, in order.  Uninterpreted function
+    whose defining equations (empty range; last element split off) are instantiated at the term that occurs (one unfolding)."""
+    g = tk.fields["_tokengen"].items
+    a, b = lift(a), lift(b)
+    c = GCAT(g, a, b)
+    st.assume(z3.Implies(b <= a, c == z3.StringVal("")))
+    st.assume(z3.Implies(b > a, c == z3.Concat(GCAT(g, a, b - 1), Tok.string(g[b - 1]))))
+    st.assume(z3.Implies(b - 1 <= a, GCAT(g, a, b - 1) == z3.StringVal("")))
+    return c
 
 
 def sf_prefix_of(ex, st, a, b):
@@ -276,4 +295,4 @@ def sf_node_end(ex, st, n):
 
 SPEC_FUNCS = {"lines_ok": sf_lines_ok, "node_start": sf_node_start, "node_end": sf_node_end, "node_wf": sf_node_wf, "wf_error": sf_wf_error, "tok_wf": sf_tok_wf, "toks_wf": sf_toks_wf, "lines_left": sf_lines_left, "indent_col": sf_indent_col, "indents_wf": sf_indents_wf, "is_blank_char": sf_is_blank_char, "last": sf_last, "lr_cache_ok": sf_lr_cache_ok, "cache_ok": sf_cache_ok, "cache_has": sf_cache_has, "cache_end": sf_cache_end, "cache_tree": sf_cache_tree, "em_cached": sf_em_cached, "tk_ok": sf_tk_ok, "can_peek": sf_can_peek, "layout": sf_layout, "cache_wf": sf_cache_wf, "truthy": sf_truthy, "is_none": sf_is_none, "pos_le": sf_pos_le,
               "endmarker_last": sf_endmarker_last, "endmarker_pulled": sf_endmarker_pulled, "gen_pos": sf_gen_pos,
-              "gen_len": sf_gen_len, "gen_item": sf_gen_item, "prefix_of": sf_prefix_of, "tok_type": sf_tok_type}
+              "gen_len": sf_gen_len, "gen_cat": sf_gen_cat, "gen_item": sf_gen_item, "prefix_of": sf_prefix_of, "tok_type": sf_tok_type}
